@@ -450,7 +450,14 @@ class Renderer:
         if k in ('exit', 'cycle', 'return', 'continue', 'stop'):
             toks = [self.kw(k, '')]
             if len(s) > 1 and s[1]:
-                toks.append(T(s[1], ID, ' '))
+                tgt = s[1]
+                if isinstance(tgt, list) and tgt[0] == 'loop':
+                    # construct name of the enclosing named DO whose variable is tgt[1]
+                    names = [nm for v, nm in getattr(self, 'loopstack', []) if v == tgt[1] and nm]
+                    if not names:
+                        raise ValueError(f'{k} targets a loop over {tgt[1]} that is not an enclosing named DO')
+                    tgt = names[-1]
+                toks.append(T(tgt, ID, ' '))
             return toks
         if k == 'raw':
             return [T(s[1], PUNCT)]
@@ -527,7 +534,13 @@ class Renderer:
                 hdr += [T(',', PUNCT)] + st
             self.emit(hdr, level, None)
             self.linemap.setdefault(key, {})['header'] = [start, len(self.lines)]
-            self.body(body, level + 1, p + ('b',))
+            if not hasattr(self, 'loopstack'):
+                self.loopstack = []
+            self.loopstack.append((var, name))
+            try:
+                self.body(body, level + 1, p + ('b',))
+            finally:
+                self.loopstack.pop()
             if form == 'label':
                 self.emit([T(label, NUM), self.kw('continue')], level, None)
             else:
